@@ -291,7 +291,7 @@ def run(ctx):
 
 
 MANIFEST = dict(
-    text='Decides, by exhaustive enumeration of weak orderings (a finite abstract domain that is exact for comparison-only predicates): soundness of the five bounding-box pre-filters; the 9-case table of Polygon::contain over (p0.x, p1.x) against x (only strictly-left edges may be skipped, right edges counted, all others go through the determinant test that reports on-edge points), the half-open crossing rule, and soundness/completeness of the vertex/horizontal-edge boundary test over 81 orderings; plus: group functions reach a positive verdict only through Polygon::contain, visit all points and polygons, and reset a per-point verdict at the start of every point's iteration; area/signed_area/perimeter return 0 below three vertices before reading vertices, area and signed_area share one shoelace prologue+loop, the repetition factor applies to area and perimeter only, the perimeter is closed. Accumulation of the winding number over whole polygons and floating-point sums are not decided.',
+    text='Decides, by exhaustive enumeration of weak orderings (a finite abstract domain that is exact for comparison-only predicates): soundness of the five bounding-box pre-filters; the 9-case table of Polygon::contain over (p0.x, p1.x) against x (only strictly-left edges may be skipped, right edges counted, all others go through the determinant test that reports on-edge points), the half-open crossing rule, and soundness/completeness of the vertex/horizontal-edge boundary test over 81 orderings; plus: group functions reach a positive verdict only through Polygon::contain, visit all points and polygons, and reset a per-point verdict at the start of the iteration of every point; area/signed_area/perimeter return 0 below three vertices before reading vertices, area and signed_area share one shoelace prologue+loop, the repetition factor applies to area and perimeter only, the perimeter is closed. Accumulation of the winding number over whole polygons and floating-point sums are not decided.',
     note='Trusted: clang front end, gx, sa rules. Conditions are interpreted only as Boolean combinations of comparisons; anything else raises analysis-broken.',
     technique='predicate extraction + exhaustive weak-order enumeration (finite abstract domain) + decision-table extraction + clone/shape rules',
     design='§4 C14')
